@@ -16,6 +16,15 @@
 //   - In addition the Rewrite() strings of all expressions must agree and marshalling the
 //     received statement again must give the same bytes as the first payload.
 //
+// Size: besides the nesting bound the generators have a size class (sqlgen_test.go wideTargets,
+// exprgen_test.go genWideExpr): one clause / one tree of the statement gets 12..100 terms on one or
+// two levels (where clause with that many tag filters, f0+f1+..., a call with that many params, a
+// having with that many comparisons, long in/select/group by/order by lists, planner-built
+// right-deep chains). The classes wide=..., exprNodes=..., fanout=... count them.
+//
+// Concurrent sessions: sessions_test.go (every result of concurrently parsing goroutines must be
+// the verdict of the same text parsed alone).
+//
 // Determinism of sql.Parse: the same text is parsed twice (and a third time after the pooled
 // lexer/parser went through a rejected text) and the results must be equal. Query.TimeRange
 // reads the wall clock when a bound is missing or written with now(); the generator knows for
@@ -405,6 +414,93 @@ func nodeKinds(e stmt.Expr, set map[string]bool) {
 	}
 }
 
+// exprNodes counts every node of the tree (wrappers included): the size of ONE top-level
+// expression, as opposed to its depth.
+func exprNodes(e stmt.Expr) int {
+	if isNilExpr(e) {
+		return 0
+	}
+	switch x := e.(type) {
+	case *stmt.SelectItem:
+		return 1 + exprNodes(x.Expr)
+	case *stmt.OrderByExpr:
+		return 1 + exprNodes(x.Expr)
+	case *stmt.CallExpr:
+		n := 1
+		for _, p := range x.Params {
+			n += exprNodes(p)
+		}
+		return n
+	case *stmt.ParenExpr:
+		return 1 + exprNodes(x.Expr)
+	case *stmt.NotExpr:
+		return 1 + exprNodes(x.Expr)
+	case *stmt.BinaryExpr:
+		return 1 + exprNodes(x.Left) + exprNodes(x.Right)
+	default:
+		return 1
+	}
+}
+
+// exprFanout is the largest number of children/values of one node of the tree.
+func exprFanout(e stmt.Expr) int {
+	if isNilExpr(e) {
+		return 0
+	}
+	max := func(a, b int) int {
+		if a > b {
+			return a
+		}
+		return b
+	}
+	switch x := e.(type) {
+	case *stmt.SelectItem:
+		return max(1, exprFanout(x.Expr))
+	case *stmt.OrderByExpr:
+		return max(1, exprFanout(x.Expr))
+	case *stmt.CallExpr:
+		n := len(x.Params)
+		for _, p := range x.Params {
+			n = max(n, exprFanout(p))
+		}
+		return n
+	case *stmt.ParenExpr:
+		return max(1, exprFanout(x.Expr))
+	case *stmt.NotExpr:
+		return max(1, exprFanout(x.Expr))
+	case *stmt.BinaryExpr:
+		return max(2, max(exprFanout(x.Left), exprFanout(x.Right)))
+	case *stmt.InExpr:
+		return len(x.Values)
+	default:
+		return 0
+	}
+}
+
+// querySize: the node count of the largest top-level expression and the largest fan-out (params of a
+// call, values of an in-list, entries of the select / group by / order by lists).
+func querySize(q *stmt.Query) (maxNodes, maxFanout int) {
+	_, es := queryExprs(q)
+	for _, e := range es {
+		if n := exprNodes(e); n > maxNodes {
+			maxNodes = n
+		}
+		if n := exprFanout(e); n > maxFanout {
+			maxFanout = n
+		}
+	}
+	for _, n := range []int{len(q.SelectItems), len(q.GroupBy), len(q.OrderByItems)} {
+		if n > maxFanout {
+			maxFanout = n
+		}
+	}
+	return
+}
+
+func sizeLabels(maxNodes, maxFanout int) []string {
+	return []string{"exprNodes=" + sizeBucket(maxNodes), "fanout=" + sizeBucket(maxFanout)}
+}
+
 func queryDepth(q *stmt.Query) int {
 	_, es := queryExprs(q)
 	m := 0
@@ -482,6 +578,7 @@ func queryProperty(t *rapid.T) {
 		t.Fatalf("sql.Parse is not deterministic: first %v, second %v\nsql: %s", err1, err2, text)
 	}
 	classes := append(sortedKeys(g.kinds, "clause="), sortedKeys(g.edges, "edge=")...)
+	classes = append(classes, g.sizeClasses()...)
 	if err1 != nil {
 		queryCounters.rejected.Add(1)
 		if edge {
@@ -544,7 +641,13 @@ func queryProperty(t *rapid.T) {
 	for _, e := range es {
 		nodeKinds(e, nodes)
 	}
-	classes = append(classes, fmt.Sprintf("depth=%d", depth), fmt.Sprintf("clauseKinds=%d", nk))
+	if depth > 12 {
+		classes = append(classes, "depth>12")
+	} else {
+		classes = append(classes, fmt.Sprintf("depth=%d", depth))
+	}
+	classes = append(classes, fmt.Sprintf("clauseKinds=%d", nk))
+	classes = append(classes, sizeLabels(querySize(q1))...)
 	classes = append(classes, sortedKeys(nodes, "node=")...)
 	if q1.AllFields {
 		classes = append(classes, "allFields")
@@ -619,8 +722,13 @@ func metaProperty(t *rapid.T) {
 		}
 	}
 	payload, _ := m1.MarshalJSON()
-	ev.Case("TestParsedMetadataSurvivesWire", text, depth >= 3 && nk >= 3,
-		[]string{"kind=" + kind, fmt.Sprintf("depth=%d", depth), fmt.Sprintf("clauseKinds=%d", nk)},
+	dl := fmt.Sprintf("depth=%d", depth)
+	if depth > 12 {
+		dl = "depth>12"
+	}
+	classes := append([]string{"kind=" + kind, dl, fmt.Sprintf("clauseKinds=%d", nk)}, g.sizeClasses()...)
+	classes = append(classes, sizeLabels(exprNodes(m1.Condition), exprFanout(m1.Condition))...)
+	ev.Case("TestParsedMetadataSurvivesWire", text, depth >= 3 && nk >= 3, classes,
 		map[string]any{"sql": text, "payload": string(payload)})
 }
 
